@@ -85,7 +85,7 @@ func coqNotify(k *FaultCase) string {
 	e := &encoder{}
 	recs := []int64{int64(len(k.Records))}
 	for _, r := range k.Records {
-		recs = append(recs, e.s(r.Method), e.s(r.URL), int64(r.Status), int64(r.Dur), int64(r.TDur), r.TS,
+		recs = append(recs, e.s(r.Method), e.s(r.URL), encStatus(r.Status), int64(r.Dur), int64(r.TDur), r.TS,
 			e.s(r.Cons), e.s(r.Icpt), b2i(r.Internal))
 	}
 	runs := []int64{int64(len(k.Runs))}
@@ -121,7 +121,8 @@ func coqNotify(k *FaultCase) string {
 // ---------------------------------------------------------------- generator
 
 var notifyStatuses = []int{200, 200, 201, 404, 401, 499, 501, 505, 302,
-	400, 403, 408, 409, 413, 417, 500, 502, 503, 504, 503, 502}
+	400, 403, 408, 409, 413, 417, 500, 502, 503, 504, 503, 502,
+	-1, 0, 99, 600, 999} // the last five: not HTTP status codes (HAProxy's placeholder -1 ...)
 
 var engineModes = []int{engUp, engNotFound, engRefuse, engHangUp, engError, engReset}
 
